@@ -1,10 +1,12 @@
 """C17 - test helpers agree with ground truth and parser (differential monitor)."""
 
+import contextvars
+import copy
 import random
 import unittest
 
 import eliot
-from eliot import MemoryLogger
+from eliot import Action, MemoryLogger, preserve_context
 from eliot.parse import Parser, WrittenAction
 from eliot.testing import LoggedAction, LoggedMessage, assertHasAction, assertHasMessage, swap_logger
 
@@ -22,7 +24,13 @@ RULE = ("ProgGen programs over a 3-letter type alphabet (so equal types recur as
         "task_level; descendants()/type_tree() == pre-order walk; LoggedMessage.of_type == exactly the messages of the type in order; "
         "assertHasAction/assertHasMessage succeed iff the FIRST entry has the expected outcome and a superset of the expected fields "
         "(expected dicts generated as true subsets, with one wrong / missing pair, and as the fields of a LATER entry of the same type). Some batches run in an interpreter started with -O. non-trivial = a type occurring at >=2 depths or "
-        "nested inside itself; distinct by program shape")
+        "nested inside itself; distinct by program shape. "
+        "Half of the programs also contain hand-offs that are never continued in the captured logger (Action.serialize_task_id whose id "
+        "leaves the process or is continued with another ILogger, preserve_context whose callable is never run), so finished actions "
+        "have gaps in their children's indices; all of the above must still hold for them (exactly the logged children, the parser's "
+        "tree). For dict-valued (also nested, a fifth of the programs generate values two levels deep) start / end / message fields of "
+        "the first entry the assert helpers are given an equal copy (must pass) and a strict sub-dict, {} or a copy with a nested dict "
+        "emptied (must fail: a field is matched by equality of its value)")
 ASSUMPTIONS = ["all actions are finished before the helpers are used (of_type documents ValueError otherwise)"]
 BATCH = 30
 TYPES = ["t:a", "t:b", "t:c"]
@@ -124,6 +132,115 @@ def find_written(root, level):
     return node
 
 
+RESERVE_KINDS = ["serialize_task_id", "serialize_task_id", "preserve_context", "continued_elsewhere"]
+
+
+def add_reservations(prog, rng, next_nid, p):
+    """Insert hand-offs that are never continued in the captured logger at random positions of action bodies: the action
+    serializes its task id (the id leaves the process), wraps a callable with preserve_context that is never run, or the id is
+    continued with another ILogger. Each reserves one child position that stays empty in the captured log."""
+    count = [0]
+
+    def walk(nodes, inside):
+        for n in list(nodes):
+            if n["k"] in ("act", "remote"):
+                walk(n["children"], True)
+        if inside:
+            k = 0
+            while k < 3 and rng.random() < p:
+                k += 1
+                count[0] += 1
+                nodes.insert(rng.randint(0, len(nodes)), {"k": "remote", "nid": next_nid + count[0], "api": "reserve-only",
+                                                          "drop": rng.choice(RESERVE_KINDS), "outcome": "ok", "children": []})
+    walk(prog, False)
+    return count[0]
+
+
+class _Interp(Interp):
+    """Interp that also executes the reserve-only hand-offs (no ground-truth node: nothing is logged for them here)."""
+
+    def __init__(self):
+        Interp.__init__(self)
+        self.elsewhere = MemoryLogger()  # stands for the other process / the production logger the id travelled to
+        self.gap_lists = {}  # id(ground-truth children list of the reserving action) -> number of positions left empty
+
+    def exec_remote(self, node, gt_children, cur):
+        how = node.get("drop")
+        if how is None:
+            return Interp.exec_remote(self, node, gt_children, cur)
+        if cur is None or gt_children is None:
+            return
+        self.count("reserve-only:" + how)
+        if how == "preserve_context":
+            ok, g = self.api("preserve_context", preserve_context, lambda: None)
+            if ok:
+                self.__dict__.setdefault("_never_called", []).append(g)
+        else:
+            ok, tid = self.api("serialize_task_id", cur.serialize_task_id)
+            if ok and how == "continued_elsewhere":
+                def far_side():
+                    with Action.continue_task(self.elsewhere, tid) as a:
+                        a.log(message_type="t:a:m", nid=-7)
+                self.api("continue_task(another logger)", contextvars.Context().run, far_side)
+        if ok:
+            self.gap_lists[id(gt_children)] = self.gap_lists.get(id(gt_children), 0) + 1
+
+
+def has_gap(gt, gap_lists):
+    """Did this action or one of its descendant actions leave a reserved child position empty?"""
+    if gt["kind"] != "action":
+        return False
+    return id(gt["children"]) in gap_lists or any(has_gap(c, gap_lists) for c in gt["children"])
+
+
+def shrinkable(v):
+    """Paths (through dicts and lists) to the non-empty dicts inside a value."""
+    out = []
+
+    def walk(x, path):
+        if isinstance(x, dict):
+            if x:
+                out.append(path)
+            for k in x:
+                walk(x[k], path + (k,))
+        elif isinstance(x, list):
+            for i, y in enumerate(x):
+                walk(y, path + (i,))
+    walk(v, ())
+    return out
+
+
+def shrink(v, rng):
+    """A copy of v in which one dict (v itself or a nested one) lacks one of its keys: a strict sub-dict, not equal to v."""
+    path = rng.choice(shrinkable(v))
+    w = copy.deepcopy(v)
+    d = w
+    for k in path:
+        d = d[k]
+    del d[rng.choice(sorted(d, key=repr))]
+    return w
+
+
+def dict_variants(fields, rng):
+    """For one dict-valued field: (label, replacement value, must the helper accept it)."""
+    keys = [k for k in sorted(fields, key=repr) if isinstance(fields[k], dict) and fields[k] and fields[k] != {"__anytext__": True}]
+    if not keys:
+        return None, []
+    k = rng.choice(keys)
+    v = fields[k]
+    out = [("equal-dict-copy", copy.deepcopy(v), True), ("strict-sub-dict", shrink(v, rng), False), ("empty-dict-for-non-empty", {}, False)]
+    nested = [p for p in shrinkable(v) if p]
+    if nested:
+        path = rng.choice(nested)
+        w = copy.deepcopy(v)
+        d = w
+        for q in path[:-1]:
+            d = d[q]
+        d[path[-1]] = {}
+        out.append(("nested-dict-emptied", w, False))
+    return k, out
+
+
 class _TC(unittest.TestCase):
     def runTest(self):
         pass
@@ -131,13 +248,17 @@ class _TC(unittest.TestCase):
 
 def one(seed, i, res):
     rng = random.Random("%s:C17:%d" % (seed, i))
-    g = gen.ProgGen(rng, max_depth=rng.choice([3, 4, 6]), max_nodes=rng.choice([10, 25, 50]), value_depth=1, type_names=TYPES,
+    rng2 = random.Random("%s:C17:widen:%d" % (seed, i))  # choices added later draw from a stream of their own
+    g = gen.ProgGen(rng, max_depth=rng.choice([3, 4, 6]), max_nodes=rng.choice([10, 25, 50]), value_depth=2 if rng2.random() < 0.2 else 1, type_names=TYPES,
                     allow_typed=False, allow_tb=False, act_styles=["with", "ctx_finish", "run_finish", "log_call", "start_task"],
                     msg_styles=["log_message", "action.log", "Message.log", "Message.new.write"], fail_p=0.3, defer_p=0.4)
     prog = g.program()
+    if rng2.random() < 0.5:
+        # hand-offs whose reserved child position is never filled in this logger (sibling indices with gaps)
+        add_reservations(prog, rng2, g.nid + 1000, rng2.choice([0.15, 0.4]))
     logger = MemoryLogger()
     prev = swap_logger(logger)
-    it = Interp()
+    it = _Interp()
     it.allow_defer = True
     try:
         forest = it.run(prog)
@@ -168,6 +289,8 @@ def one(seed, i, res):
             continue
         for j, ((n, d, anc), la) in enumerate(zip(want, got)):
             cmp_logged(n, la, "%s[%d]" % (T, j), problems)
+            if has_gap(n, it.gap_lists):
+                res["counters"]["logged_actions_with_unfilled_reserved_position"] = res["counters"].get("logged_actions_with_unfilled_reserved_position", 0) + 1
             # same tree as the parser
             t = tasks.get(la.start_message["task_uuid"])
             w = find_written(t.root(), la.start_message["task_level"][:-1]) if t else None
@@ -218,6 +341,13 @@ def one(seed, i, res):
                 later = want[-1][0]
                 variants.append(("start-fields-of-a-later-entry", ok_succeeded, {"nid": later["nid"]}, {}, False))
                 variants.append(("start-fields-and-outcome-of-a-later-entry", later["status"] == "succeeded", {"nid": later["nid"]}, {}, False))
+            # a dict-valued field is a field like any other: the expectation must equal what was logged, a sub-dict does not
+            for side, logged_fields in (("start", first["start"]), ("end", first["end"] or {})):
+                dk, dvs = dict_variants(logged_fields, rng2)
+                for dlabel, dv, dok in dvs:
+                    variants.append(("%s-field-%s" % (side, dlabel), ok_succeeded, {**sf, dk: dv} if side == "start" else sf,
+                                     {**ef, dk: dv} if side == "end" else ef, dok))
+                    res["counters"]["dict_valued_field_expectations"] = res["counters"].get("dict_valued_field_expectations", 0) + 1
             for label, succ, s_, e_, expect_ok in variants:
                 try:
                     r = assertHasAction(tc, logger, T if rng.random() < 0.5 else eliot.ActionType(T, [], [], ""), succ, s_, e_)
@@ -255,6 +385,10 @@ def one(seed, i, res):
                 # fields that only a later message of the type has must not satisfy the assertion about the first one
                 mvariants.append(("fields-of-a-later-entry", {"nid": want[-1]["nid"]}, False))
                 mvariants.append(("all-fields-of-a-later-entry", dict(want[1]["fields"]), json_equal(want[1]["fields"], first["fields"])))
+            dk, dvs = dict_variants(first["fields"], rng2)
+            for dlabel, dv, dok in dvs:
+                mvariants.append(("field-" + dlabel, {**sub, dk: dv}, dok))
+                res["counters"]["dict_valued_field_expectations"] = res["counters"].get("dict_valued_field_expectations", 0) + 1
             for label, f_, expect_ok in mvariants:
                 try:
                     r = assertHasMessage(tc, logger, T if rng.random() < 0.5 else eliot.MessageType(T, [], ""), f_)
@@ -322,4 +456,8 @@ def run_case(spec):
 def finalize(agg, tier):
     if agg["counters"].get("logged_actions_compared", 0) < 2000:
         return "fewer than 2000 logged actions compared"
+    if agg["counters"].get("logged_actions_with_unfilled_reserved_position", 0) == 0:
+        return "no compared action had a reserved child position that was never continued in the captured logger"
+    if agg["counters"].get("dict_valued_field_expectations", 0) == 0:
+        return "no assert-helper expectation about a dict-valued field was generated"
     return None
